@@ -75,7 +75,9 @@ func specRefs(s *workload.TypeSpec) []string {
 		out = append(out, s.Members...)
 	}
 	for _, d := range s.DirUses {
-		n := strings.TrimPrefix(d, "@")
+		// directives and types have separate name spaces: directive names keep
+		// their @ in the reference bookkeeping
+		n := d
 		if i := strings.Index(n, "("); i >= 0 {
 			n = n[:i]
 		}
@@ -227,6 +229,13 @@ func splitSpecMulti(t *tape.Tape, s *workload.TypeSpec) (base string, exts []str
 			return "", nil, false
 		}
 		k := 1 + t.Draw(len(s.Fields)-1)
+		if s.Kind == "object" && len(s.Implements) > 0 && t.Bool(1, 2) {
+			// the last interface moves into an extend block of its own that comes
+			// BEFORE the blocks bringing the fields it requires
+			k = 1
+			cp.Implements = s.Implements[:len(s.Implements)-1]
+			exts = append(exts, "extend type "+s.Name+" implements "+s.Implements[len(s.Implements)-1]+" {\n}\n")
+		}
 		cp.Fields = s.Fields[:k]
 		for _, f := range s.Fields[k:] {
 			x := workload.TypeSpec{Kind: s.Kind, Name: s.Name, Fields: []workload.FieldSpec{f}}
@@ -335,6 +344,9 @@ func (c C16) Run(t *tape.Tape, opt core.RunOpt) (res core.Result) {
 			continue
 		}
 		cf := &c16Frag{name: f.Spec.Name, text: f.Text, refs: specRefs(f.Spec), spec: f.Spec}
+		if f.Spec.Kind == "directive" {
+			cf.name = "@" + f.Spec.Name
+		}
 		frags = append(frags, cf)
 		if f.Spec.Kind == "directive" {
 			// make it usable by later definitions
@@ -434,6 +446,7 @@ func (c C16) Run(t *tape.Tape, opt core.RunOpt) (res core.Result) {
 		for i, f := range frags {
 			texts[i] = f.text
 		}
+		optMoved := map[string]bool{}
 		kind := t.Draw(6)
 		if kind == 5 {
 			// one extend block per moved member, the blocks of a type in member
@@ -465,7 +478,29 @@ func (c C16) Run(t *tape.Tape, opt core.RunOpt) (res core.Result) {
 			a.ext = true
 			for i, f := range frags {
 				if f.spec != nil && t.Bool(1, 2) {
-					if b, x, ok := splitSpec(t, f.spec); ok {
+					sp := f.spec
+					if litInputs[sp.Name] {
+						// only optional trailing fields may move: the literals written
+						// for this input name its required fields
+						n := len(sp.Fields)
+						for n > 0 && (!strings.HasSuffix(sp.Fields[n-1].Type.String(), "!") || sp.Fields[n-1].Default != "") {
+							n--
+						}
+						if n == len(sp.Fields) || n == 0 {
+							continue
+						}
+						base := *sp
+						base.Fields = sp.Fields[:n]
+						var b strings.Builder
+						for _, fl := range sp.Fields[n:] {
+							one := workload.TypeSpec{Kind: "input", Name: sp.Name, Fields: []workload.FieldSpec{fl}}
+							b.WriteString("extend " + one.SDL())
+						}
+						texts[i], extra[i] = base.SDL(), b.String()
+						optMoved[sp.Name] = true
+						continue
+					}
+					if b, x, ok := splitSpec(t, sp); ok {
 						texts[i], extra[i] = b, x
 					}
 				}
@@ -496,7 +531,7 @@ func (c C16) Run(t *tape.Tape, opt core.RunOpt) (res core.Result) {
 				a.loads[load[i]] = append(a.loads[load[i]], texts[i])
 				if extra[i] != "" {
 					el := load[i] + t.Draw(nl-load[i])
-					if sp := frags[i].spec; sp != nil && (sp.Kind == "interface" || len(sp.Implements) > 0 || litInputs[sp.Name]) {
+					if sp := frags[i].spec; sp != nil && (sp.Kind == "interface" || len(sp.Implements) > 0 || (litInputs[sp.Name] && !optMoved[sp.Name])) {
 						// every load has to leave a well-formed schema behind: members
 						// that interface conformance depends on stay in the same load
 						el = load[i]
